@@ -67,7 +67,9 @@ def template_doc(rng: random.Random, props: bool) -> str:
     enums = []
     if rng.random() < 0.7:
         for k in range(rng.randint(1, 2)):
-            name = f"e{k}"
+            name = f"e{k}" if rng.random() < 0.7 else rng.choice(["text", "status_t", "varchar"])
+            if name in [e.split(".")[-1] for e in enums]:
+                name = f"e{k}"
             schema = rng.choice(["", "", "s1."])
             items = rng.sample(["created", "running", "done", "failure", "Out of Stock"], rng.randint(1, 3))
             body = []
@@ -106,8 +108,9 @@ def template_doc(rng: random.Random, props: bool) -> str:
             typ = "int" if c in ("id", "ref_id", "val") else rng.choice(["varchar", "varchar(255)", "text"])
             if c == "status" and enums:
                 typ = rng.choice(enums)
-                if "." in typ:
-                    typ = typ  # schema-qualified enum
+            elif c in ("status", "name") and rng.random() < 0.35:
+                # a type name that is an enum in *other* documents of the corpus, plain here
+                typ = rng.choice(["e0", "e1", "status_t", "s1.e0"])
             opts = []
             if c == "id" and rng.random() < 0.8:
                 opts.append("pk")
